@@ -28,7 +28,7 @@ import json, sys
 sid, prop, res, files = sys.argv[1:5]
 meta = dict(id=sid, breaks_property=prop, files_changed=files.split(),
             needs_to_manifest="see notes.md (written by the sub-agent that produced the change)",
-            origin="round 2: fresh sub-agent given only the property text, a focus area and a scratch worktree of /repo",
+            origin="round 3: fresh sub-agent given only the property text, a focus area and a scratch worktree of /repo",
             confirmed_by_me=dict(how="tools/import_seed.sh: scratch worktree; git apply; cargo test --workspace --no-fail-fast --offline; demo as tests/seed_demo.rs with and without the patch; hooks-on build",
                                  result=res), detected_by=None)
 json.dump(meta, open("/verif/seeded/%s/meta.json" % sid, "w"), indent=1)
